@@ -1,10 +1,47 @@
 import Abasic.Exec.Codec
+import Abasic.Ref.Expr
 /-
   Line-protocol driver: one operation per input line, one reply line per
   operation (DESIGN.md 3.2).  Payloads are hex-encoded UTF-8.
 -/
 namespace Abasic.Exec
 open Abasic
+
+def unOpOf : String → Option UnOp
+  | "pos" => some .pos | "neg" => some .neg | "not" => some .not | _ => none
+
+def binOpOf : String → Option BinOp
+  | "pow" => some .pow | "mul" => some .mul | "div" => some .div | "add" => some .add | "sub" => some .sub
+  | "and" => some .and | "or" => some .or
+  | "eq" => some (.cmp .eq) | "lt" => some (.cmp .lt) | "le" => some (.cmp .le)
+  | "gt" => some (.cmp .gt) | "ge" => some (.cmp .ge) | "ne" => some (.cmp .ne)
+  | _ => none
+
+/-- Polish notation: `n<bits>`, `s<hex>`, `v<hex>`, `u<op> e`, `b<op> l r`, `p e`, `a e`, `i e`. -/
+def parseExpr : Nat → List String → Option (Ref.Expr Float × List String)
+  | 0, _ => none
+  | _, [] => none
+  | fuel + 1, t :: rest =>
+    let tag := t.take 1
+    let arg := (t.drop 1).toString
+    if tag == "n" then some (.num (decF arg), rest)
+    else if tag == "s" then (unhex arg).map fun s => (.str s, rest)
+    else if tag == "v" then (unhex arg).map fun s => (.var s, rest)
+    else if tag == "u" then
+      match unOpOf arg, parseExpr fuel rest with
+      | some op, some (e, r) => some (.un op e, r)
+      | _, _ => none
+    else if tag == "b" then
+      match binOpOf arg, parseExpr fuel rest with
+      | some op, some (l, r1) =>
+        (match parseExpr fuel r1 with
+         | some (r, r2) => some (.bin op l r, r2)
+         | none => none)
+      | _, _ => none
+    else if tag == "p" then (parseExpr fuel rest).map fun (e, r) => (.paren e, r)
+    else if tag == "a" then (parseExpr fuel rest).map fun (e, r) => (.abs e, r)
+    else if tag == "i" then (parseExpr fuel rest).map fun (e, r) => (.int e, r)
+    else none
 
 structure Session where
   st : St Float := {}
@@ -46,6 +83,15 @@ def step (sess : Session) (line : String) : Session × String :=
   | ["take"] =>
     let (outs, s) := takeOutput sess.st
     ({ sess with st := s }, if outs.isEmpty then "-" else " ".intercalate (outs.map encOut))
+  | "fold" :: toks =>
+    (match parseExpr (toks.length + 1) toks with
+     | some (e, []) =>
+       let env : Str → Value Float := fun n => getVar sess.st n
+       let res := match Ref.foldE env e with
+         | .ok v => "v:" ++ encValue v
+         | .error err => "e:" ++ encErrKind err
+       (sess, hexOfStr e.text ++ " " ++ res)
+     | _ => (sess, "bad-expr"))
   | ["state"] => (sess, encState sess.st.state)
   | ["reads"] => (sess, toString sess.st.reads)
   | ["nesting"] => (sess, toString sess.st.nesting)
